@@ -416,7 +416,7 @@ def legalS (st : St) : SOp → Bool
       | none => false
   | .allocAutoDV s inv v ud => match st.subs[s]? with
       -- the DV part throws before any side effect; otherwise the cache-entry part must not throw
-      | some _ => (excOf st (.allocAutoDV s inv v ud)).isSome || (4 < inv && 1 ≤ ud && ud ≤ 9)
+      | some sb => (excOf st (.allocAutoDV s inv v ud)).isSome || (sb.cur + 1 < inv && 1 ≤ ud && ud ≤ 9)
       | none => false
   | .allocCE s _ _ _ => s < st.subs.length
   | .allocCEpre s _ _ _ _ _ dvs ces _ => match st.subs[s]? with
